@@ -111,15 +111,18 @@ def apply_real(ctx, op, cur, env, readers=None):
     elif k == "combine":
         other = env[op["with"]]
         a, b = (cur, other) if op.get("first", True) else (other, cur)
-        if readers is None:
+        lim = op.get("limit")
+        if readers is None and lim is None:
             tools.combine(a, b, out, op.get("v1"), op.get("v2"))
         else:
             from amr_kitchen import PlotfileCooker
             from amr_kitchen.combine.combine import combine as cb
+            if readers is None:
+                readers = {}
             for x in (a, b):
-                if x not in readers:
-                    readers[x] = PlotfileCooker(x)
-            cb(readers[a], readers[b], pltout=out, vars1=op.get("v1"), vars2=op.get("v2"))
+                if (x, lim) not in readers:
+                    readers[(x, lim)] = PlotfileCooker(x) if lim is None else PlotfileCooker(x, limit_level=lim)
+            cb(readers[(a, lim)], readers[(b, lim)], pltout=out, vars1=op.get("v1"), vars2=op.get("v2"))
     elif k == "chef":
         rp = os.path.join(ctx.scratch, f"rec_{op['name']}.py")
         with open(rp, "w") as f:
@@ -135,6 +138,9 @@ def apply_pure(op, c, cenv):
     if k == "combine":
         other = cenv[op["with"]]
         a, b = (c, other) if op.get("first", True) else (other, c)
+        if op.get("limit") is not None:
+            # both readers are opened with this level limit
+            a, b = pure_strain(a, ["all"], op["limit"]), pure_strain(b, ["all"], op["limit"])
         return pure_combine(a, b, op.get("v1"), op.get("v2"))
     if k == "chef":
         return pure_cook(c, op["name"], op["kept"])
@@ -203,13 +209,17 @@ def gen_ops(rng, spec, sib, kinds):
     ops = []
     fields = list(names)
     cooked = 0
+    cur_levels = nlev
     for n, k in enumerate(kinds):
         later = kinds[n + 1:]
         combine_later = any(x.startswith("combine") for x in later)
         nxt = later[0] if later else ""
         if k == "colander":
             sel = rng.choice([["all"], fields[::-1], fields[:1] + ["nope"], rng.sample(fields, max(1, len(fields) - 1))])
-            lim = None if combine_later else rng.choice([None, nlev - 1, 0])
+            # a later combination opens its other operand with the same level limit, so the meshes still agree
+            lim = rng.choice([None, cur_levels - 1, 0] if not combine_later else [None, None, cur_levels - 1, max(cur_levels - 2, 0)])
+            if lim is not None:
+                cur_levels = lim + 1
             if nxt.startswith("combine-ancestor") and len(fields) > 1:
                 sel = fields[-1:]            # leave something for the ancestor to add back
             ops.append({"op": "colander", "vars": sel, "limit": lim})
@@ -232,13 +242,13 @@ def gen_ops(rng, spec, sib, kinds):
                 choice = "ancestor" if any(x not in fields for x in names) else "sibling"
             if choice == "sibling":
                 v2 = rng.choice([None, [x for x in snames if x not in fields][:1]])
-                ops.append({"op": "combine", "with": "sibling", "first": True, "v1": None, "v2": v2})
+                ops.append({"op": "combine", "with": "sibling", "first": True, "v1": None, "v2": v2, "limit": cur_levels - 1 if cur_levels < nlev else None})
                 fields = fields + [x for x in (snames if v2 is None else v2) if x not in fields]
             elif choice == "ancestor":
-                ops.append({"op": "combine", "with": "orig", "first": True, "v1": None, "v2": None})
+                ops.append({"op": "combine", "with": "orig", "first": True, "v1": None, "v2": None, "limit": cur_levels - 1 if cur_levels < nlev else None})
                 fields = fields + [x for x in names if x not in fields]
             else:
-                ops.append({"op": "combine", "with": "orig", "first": False, "v1": None, "v2": None})
+                ops.append({"op": "combine", "with": "orig", "first": False, "v1": None, "v2": None, "limit": cur_levels - 1 if cur_levels < nlev else None})
                 fields = names + [x for x in fields if x not in names]
     return ops
 
